@@ -46,7 +46,9 @@ def run(ctx):
                 src = "set f to transform if %s then return 'T' end return 'F' end\nreplace all %s with f" % (e, body)
             else:
                 src = "set f to transform return %s end\nreplace all %s with f" % (e, body)
-            extra.append({"src": src, "texts": ["a", "ab", "7", "12", "-3", "99999999999999999999", "a1", "", "x-", "0"]})
+            extra.append({"src": src, "texts": ["a", "ab", "7", "12", "-3", "99999999999999999999", "a1", "", "x-", "0",
+                                                # matches that are not text: stray and truncated bytes in front of, behind and instead of characters (head and tail work on bytes)
+                                                "\xffa", "\x80a", "\xc3a", "\xe2\x82", "a\xff", "\xc3\xa9", "\xc3\xa9\xc3", "\xf0\x9fa", "\xff\xff\xff", "\xe2\x82\xac5"]})
             if boolish:
                 extra.append({"src": "set p to pattern %s begin return %s end\nfind all p" % (body, e), "texts": ["a", "ab", "7", "", "b1"]})
     # every name the run-time environments define (and an undefined one) under every operator against every operand type, in a transform and in a predicate:
